@@ -3,10 +3,15 @@
     positive, ascii, string stay the Coq datatypes. *)
 From Coq Require Import Extraction ExtrOcamlBasic.
 From Coq Require Import List ZArith NArith.
-From Kismet Require Import Pure.SecondChance.
+From Kismet Require Import Gen.Constants Pure.SecondChance Pure.Trigger Pure.Hash.
+
+Definition plain_scale : N := Constants.PLAIN_MAINTENANCE_SCALE.
+Definition sharded_scale : N := Constants.SHARDED_MAINTENANCE_SCALE.
 
 Extraction Language OCaml.
 Extraction "../ocaml/gen/kmodel.ml"
   N.add N.mul N.of_nat N.to_nat Z.of_N Z.add Z.mul Z.opp Z.to_N N.eqb Z.eqb N.leb N.ltb N.sub N.div N.modulo
   Nat.add
-  mkEntry plan plan_rest valid_plan clock ssort clear.
+  mkEntry plan plan_rest valid_plan clock ssort clear
+  scale weight observe run_events write_step plain_period sharded_period sharded_shard_capacity sharded_num_shards
+  plain_scale sharded_scale shard_ids eff_shards format_id valid_name mix reduce PRIMARY SECONDARY.
